@@ -250,6 +250,9 @@ def main(argv):
 
     # ---- replay violations
     os.makedirs(os.path.join(OUT, 'replays', pid), exist_ok=True)
+    for old_f in os.listdir(os.path.join(OUT, 'replays', pid)):       # replay files of earlier runs are not evidence of this one
+        if old_f.startswith('violation_'):
+            os.remove(os.path.join(OUT, 'replays', pid, old_f))
     vio_lines = []
     for i, v in enumerate(violations):
         rp = os.path.join(OUT, 'replays', pid, 'violation_%d.json' % i)
